@@ -187,3 +187,9 @@ func with(w map[string]int, kv ...any) map[string]int {
 	}
 	return out
 }
+
+func dumpPath() string { return os.Getenv("VERIF_DUMP") }
+
+func writeFile(path, content string) error { return os.WriteFile(path, []byte(content), 0o644) }
+
+func isThorough() bool { return os.Getenv("VERIF_TIER") == "thorough" }
